@@ -479,7 +479,7 @@ def random_params(rnd: random.Random, tier: str, **over: Any) -> Dict[str, Any]:
         annotation_nest=rnd.random() < 0.3, p_unlaunched=rnd.choice([0.0, 0.0, 0.1]), sync_straddle=rnd.random() < 0.3, source_counters=rnd.random() < 0.25, outer_frame=rnd.random() < 0.2, corr_zero=rnd.random() < 0.3,
     )
     p["small_corr"] = rnd.random() < 0.35 and not p["big_corr"]
-    p["tid_base"] = rnd.choice([None, None, None, 33000, 40000, 140737, 2 ** 22 - 200, 1])      # 1: python is PID 1 of a container (tids 1, 2, 3)
+    p["tid_base"] = rnd.choice([None, None, None, 33000, 40000, 140737, 2 ** 22 - 200, 1, -4200])      # 1: python is PID 1 of a container (tids 1, 2, 3)
     p["tid_desc"] = rnd.random() < 0.3
     p["post_launch"] = rnd.random() < 0.3
     p["multi_process"] = rnd.random() < 0.2
